@@ -534,6 +534,100 @@ def reductions_next_to_group_specs(col):
                 break
 
 
+def reductions_as_group_aggregators(col):
+    """a Fold / Sum used as the aggregator of a Group equals reduce(op, items of the bucket, init()) too - with start values that are
+    not neutral for the operator and running values that pass through 0 / False / empty (a product through 0, and_ through False, a
+    running minimum through 0, a start value of 5)"""
+    import operator
+    from glom.grouping import Group
+    five = lambda: 5
+    one = lambda: 1
+    cases = [
+        ('product through 0', [2, 0, 3], lambda: Group(Fold(T, init=one, op=operator.mul)), lambda xs: functools.reduce(operator.mul, xs, 1)),
+        ('and_ through False', [True, False, True], lambda: Group(Fold(T, init=lambda: True, op=operator.and_)), lambda xs: functools.reduce(operator.and_, xs, True)),
+        ('running min through 0', [7, 0, 5], lambda: Group(Fold(T, init=lambda: 9, op=min)), lambda xs: functools.reduce(min, xs, 9)),
+        ('Sum with start 5 through 0', [-5, 1, 2], lambda: Group(Sum(init=five)), lambda xs: sum(xs, 5)),
+        ('string concat through empty', ['', 'a', '', 'b'], lambda: Group(Fold(T, init=str, op=operator.add)), lambda xs: ''.join(xs)),
+        ('list start emptied on the way', [[1], [2]], lambda: Group(Fold(T, init=list, op=lambda acc, x: [] if x == [1] else acc + x)), lambda xs: [2]),
+    ]
+    for desc, items, mk, ref in cases:
+        spec = mk()
+        for n in (1, 2):
+            got = call(G, list(items), spec)
+            col.case(('group-aggregator', desc, n), True)
+            col.count('glom_evaluations')
+            col.count('reductions_as_group_aggregators')
+            want = ref(items)
+            if not got.ok or got.value != want:
+                col.violation('C15/reduction-as-Group-aggregator-differs-from-reduce', '%s: Group(%s) over %r (evaluation #%d): %r, reduce gives %r'
+                              % (desc, short(spec.spec if hasattr(spec, 'spec') else spec), items, n, got, want), None)
+                break
+    per_key = call(G, [('a', 2), ('b', 5), ('a', 0), ('a', 3), ('b', 1)], Group({T[0]: Fold(T[1], init=one, op=operator.mul)}))
+    col.count('glom_evaluations')
+    col.count('reductions_as_group_aggregators')
+    if not per_key.ok or per_key.value != {'a': 0, 'b': 5}:
+        col.violation('C15/reduction-as-Group-aggregator-differs-from-reduce', 'per-key product: %r, expected %r' % (per_key, {'a': 0, 'b': 5}), None)
+
+
+class _CountedChunks:
+    """an endless producer of chunks that counts what was pulled from it; every chunk is a NEW list, or (reuse=True) one buffer that is
+    refilled for each chunk, as producers reading into a fixed buffer do"""
+    def __init__(self, reuse=False, budget=200):
+        self.pulled, self.reuse, self.budget = 0, reuse, budget
+        self.buf = [0, 0]
+
+    def __iter__(self):
+        return self
+
+    def __next__(self):
+        self.pulled += 1
+        if self.pulled > self.budget:
+            raise RuntimeError('the lazy flatten pulled more than %d chunks' % self.budget)
+        i = self.pulled - 1
+        if self.reuse:
+            self.buf[0], self.buf[1] = i, i + 10
+            return self.buf
+        return [i, i + 10]
+
+
+def lazy_flatten_is_lazy(col):
+    """Flatten(init='lazy') / flatten(.., init='lazy') equal chain.from_iterable also in WHEN they read: nothing is pulled before the
+    result is consumed, k outputs need about k/2 chunks of an endless producer, and a producer that refills one buffer per chunk gives
+    what chain.from_iterable gives"""
+    for desc, run in (("Flatten(init='lazy')", lambda src: G(src, Flatten(init='lazy'))), ("flatten(init='lazy')", lambda src: flatten(src, init='lazy')),
+                      ("Flatten(T, init='lazy') below a path", lambda src: G({'s': src}, Flatten('s', init='lazy')))):
+        src = _CountedChunks()
+        got = call(run, src)
+        col.case(('lazy-flatten', desc), True)
+        col.count('glom_evaluations')
+        col.count('lazy_flatten_pull_checks')
+        if not got.ok:
+            col.violation('C15/lazy-flatten-not-lazy', '%s over an endless producer: %r after pulling %d chunks' % (desc, got, src.pulled), None)
+            continue
+        before = src.pulled
+        first6 = list(itertools.islice(got.value, 6))
+        ref = list(itertools.islice(itertools.chain.from_iterable(_CountedChunks()), 6))
+        if before > 1 or first6 != ref or src.pulled > 5:
+            col.violation('C15/lazy-flatten-not-lazy', '%s: %d chunks pulled before the result was touched, %d for 6 outputs, outputs %r (chain.from_iterable: '
+                          '0, 3, %r)' % (desc, before, src.pulled, first6, ref), None)
+        src2 = _CountedChunks(reuse=True)
+        got2 = call(lambda: list(itertools.islice(run(src2), 6)))
+        ref2 = list(itertools.islice(itertools.chain.from_iterable(_CountedChunks(reuse=True)), 6))
+        col.count('lazy_flatten_pull_checks')
+        if not got2.ok or got2.value != ref2:
+            col.violation('C15/flatten-differs-from-chain', '%s over a producer that refills one buffer per chunk: %r, chain.from_iterable gives %r' % (desc, got2, ref2), None)
+    # two levels: the first level of flatten(levels=2) is lazy as well
+    src3 = [_CountedChunks(reuse=True, budget=3)]
+    got3 = call(lambda: flatten(([c] for c in itertools.islice(_CountedChunks(reuse=True), 3)), levels=2))
+    ref3 = call(lambda: functools.reduce(operator_iadd, itertools.chain.from_iterable([c] for c in itertools.islice(_CountedChunks(reuse=True), 3)), []))
+    col.count('lazy_flatten_pull_checks')
+    if got3.ok != ref3.ok or (got3.ok and got3.value != ref3.value):
+        col.violation('C15/flatten-function-differs:levels=2', 'flatten(levels=2) over a producer that refills one buffer: %r, reference %r' % (got3, ref3), None)
+
+
+from operator import iadd as operator_iadd  # noqa: E402
+
+
 class NoIter:
     def __repr__(self):
         return 'NoIter()'
@@ -598,6 +692,8 @@ def run(ctx):
         non_iterables(col)
         same_spec_object_on_iterable_then_not(col)
         reductions_next_to_group_specs(col)
+        reductions_as_group_aggregators(col)
+        lazy_flatten_is_lazy(col)
         lazily_flatten_items_of_non_iterable_types(col)
         non_iterables(col, ':after-reductions-over-items-of-such-types')
     for i in range(ctx.n(20000, 100000)):
